@@ -743,7 +743,7 @@ pub fn cmd_batch(args: &[String]) -> i32 {
     let evidence = arg_val(args, "--evidence").unwrap_or("/verif/evidence/C20.json").to_string();
     let replay_dir = arg_val(args, "--replay-dir").unwrap_or("/verif/replays").to_string();
     let known = load_known(arg_val(args, "--known"));
-    let default_runs: u64 = if tier == "thorough" { 240_000_000 } else { 400_000 };
+    let default_runs: u64 = if tier == "thorough" { 240_000_000 } else { 1_500_000 };
     let random_runs: u64 = arg_val(args, "--runs").and_then(|s| s.parse().ok()).unwrap_or(default_runs);
 
     println!("VERIF_SEED={} tier={} threads={} build_configuration={}", seed, tier, threads, build_config());
